@@ -418,7 +418,37 @@ impl super::DebugSession {
         Ok(())
     }
 
+    /// Announce the outcome of a resume whose request is answered already. A failure must not
+    /// become a second (error) response: the debugee does not run anymore, so it is announced
+    /// as a stop carrying the error.
+    pub(super) fn emit_stop_reason_answered(
+        &mut self,
+        stop: anyhow::Result<debugger::StopReason>,
+    ) -> anyhow::Result<()> {
+        match stop.and_then(|stop| self.emit_stop_reason(stop)) {
+            Ok(()) => Ok(()),
+            Err(e) => self.emit_manual_stop("exception", Some(format!("{e:#}"))),
+        }
+    }
+
     pub(super) fn handle_continue(&mut self, req: &DapRequest) -> anyhow::Result<()> {
+        // The response and the `continued` event are sent ahead of the blocking debugger call,
+        // so find out here, while the request is still unanswered, if there is anything to resume.
+        let dbg = self
+            .debugger
+            .as_ref()
+            .ok_or_else(|| anyhow!("continue: debugger not initialized"))?;
+        match dbg.execution_status() {
+            debugger::ExecutionStatus::InProgress => {}
+            // Loaded and waiting for `configurationDone` to start: accepted, nothing continues yet.
+            debugger::ExecutionStatus::Unload => {
+                return self.send_success_body(req, json!({"allThreadsContinued": false}));
+            }
+            debugger::ExecutionStatus::Exited => {
+                return Err(debugger::Error::ProcessNotStarted).context("continue");
+            }
+        }
+
         self.begin_running();
 
         let thread_id = self.current_thread_id();
@@ -428,12 +458,13 @@ impl super::DebugSession {
         });
         self.send_success_body(req, json!({"allThreadsContinued": true}))?;
         self.drain_events()?;
-        let dbg = self
+
+        let resumed = self
             .debugger
             .as_mut()
-            .ok_or_else(|| anyhow!("continue: debugger not initialized"))?;
-        let stop = dbg.continue_debugee_with_reason().context("continue")?;
-        self.emit_stop_reason(stop)
+            .ok_or_else(|| anyhow!("continue: debugger not initialized"))
+            .and_then(|dbg| dbg.continue_debugee_with_reason().context("continue"));
+        self.emit_stop_reason_answered(resumed)
     }
 
     pub(super) fn handle_pause(&mut self, req: &DapRequest) -> anyhow::Result<()> {
@@ -483,7 +514,7 @@ impl super::DebugSession {
             .start_debugee_force_with_reason()
             .context("restart debugee")?;
         self.send_success(req)?;
-        self.emit_stop_reason(stop)
+        self.emit_stop_reason_answered(Ok(stop))
     }
 
     pub(super) fn handle_next(&mut self, req: &DapRequest) -> anyhow::Result<()> {
